@@ -1037,3 +1037,69 @@ Proof.
     destruct Hin as [E|Hin]; [discriminate|].
     rewrite <- (execB_pend_raw D O te raw _ _ _ _ _ _ He1 _ _ eq_refl I Hp1 I nh raw0 t Hin). symmetry. exact Hdec.
 Qed.
+
+(* ---------- "still running" is backed by a fresh status check ---------- *)
+
+Lemma pserve_waitzero_alive w dur over w' : pserve w (PWaitpid true) dur over = PRes w' RWaitZero -> pr w' = PAlive.
+Proof.
+  unfold pserve. destruct (pr (padvance w (pnow w + dur))) eqn:P; intros H; try discriminate.
+  injection H as <-. exact P.
+Qed.
+
+Lemma pserve_nohang_results w dur over w' r : pserve w (PWaitpid true) dur over = PRes w' r ->
+  r = RWaitZero \/ r = RErrno ECHILD \/ exists raw, r = RWaitPid true raw.
+Proof.
+  unfold pserve. destruct (pr (padvance w (pnow w + dur))) eqn:P; intros H; injection H as _ <-; eauto.
+Qed.
+
+(* wait_timeout answers "still running" only after a non-blocking status check, completed no more than one
+   call duration before the deadline (or later), has found the child alive *)
+Lemma execB_wt_fresh D O : forall x w tr p' v w',
+  execB D O x w tr p' v w' ->
+  forall s c, x = (s, PCall c) -> expects (ppc_ s) c -> v = VStatus None ->
+  match ppc_ s with
+  | QWtClock0 d false => exists tc, In (PWaitpid true, RWaitZero, tc) tr /\ (exists t0 tr1, tr = (PClock, RTime t0, t0) :: tr1 /\ t0 + d <= tc + D)
+  | QWtWait dl _ false | QWtSleep dl _ false => exists tc, In (PWaitpid true, RWaitZero, tc) tr /\ dl <= tc + D
+  | QWtClock dl _ false => dl <= pnow w + D \/ exists tc, In (PWaitpid true, RWaitZero, tc) tr /\ dl <= tc + D
+  | _ => True
+  end.
+Proof.
+  induction 1 as [s v w|s c w dur over w' r tr p' v w'' Hd Ho Hs He IH]; intros s0 c0 Hx Hex Hv.
+  - discriminate.
+  - injection Hx as -> ->. destruct s0 as [p q]. cbn [po ppc_] in *.
+    destruct q; try exact I; destruct swallow; try exact I;
+      destruct c0 as [nh|sg| |ns]; try contradiction.
+    + (* the first clock reading *)
+      pose proof (pserve_clock _ _ _ _ _ Hs) as E. subst r. cbn [pstep po ppc_] in He, IH.
+      specialize (IH _ _ eq_refl I Hv). cbn [ppc_ mk] in IH. destruct IH as [tc [Hin Hle]].
+      exists tc. split; [right; exact Hin|]. exists (pnow w'), tr. split; [reflexivity|exact Hle].
+    + (* a status check *)
+      destruct nh; [|contradiction]. cbn [pstep po ppc_] in He, IH.
+      destruct (pserve_nohang_results _ _ _ _ _ Hs) as [->|[->|[raw ->]]]; cbn [absorb] in He, IH.
+      * destruct (cstate p) eqn:Cp.
+        -- specialize (IH _ _ eq_refl I Hv). cbn [ppc_ mk] in IH. destruct IH as [Hnear|[tc [Hin Hle]]].
+           ++ exists (pnow w'). split; [left; reflexivity|exact Hnear].
+           ++ exists tc. split; [right; exact Hin|exact Hle].
+        -- inversion He; subst. discriminate.
+      * rewrite N.eqb_refl in He. cbn [cstate fin_with] in He. inversion He; subst. discriminate.
+      * cbn [cstate fin_with] in He. inversion He; subst. discriminate.
+    + (* the clock reading that decides *)
+      pose proof (pserve_clock _ _ _ _ _ Hs) as E. subst r.
+      pose proof (pserve_time_clock _ _ _ _ _ Hs) as Ht. cbn [pstep po ppc_] in He, IH.
+      destruct (dl <=? pnow w') eqn:E.
+      * apply N.leb_le in E. left. lia.
+      * specialize (IH _ _ eq_refl I Hv). cbn [ppc_ mk] in IH. destruct IH as [tc [Hin Hle]].
+        right. exists tc. split; [right; exact Hin|exact Hle].
+    + cbn [pstep po ppc_] in He, IH. specialize (IH _ _ eq_refl I Hv). cbn [ppc_ mk] in IH.
+      destruct IH as [tc [Hin Hle]]. exists tc. split; [right; exact Hin|exact Hle].
+Qed.
+
+Theorem wt_none_is_fresh D O p d w tr p' w' :
+  execB D O (start_op p (OpWaitTimeout d)) w tr p' (VStatus None) w' ->
+  exists t0 tr1 tc, tr = (PClock, RTime t0, t0) :: tr1 /\ In (PWaitpid true, RWaitZero, tc) tr1 /\ t0 + d <= tc + D.
+Proof.
+  cbn [start_op]. destruct (cstate p) eqn:Hp; intros R; [|inversion R].
+  pose proof (execB_wt_fresh D O _ _ _ _ _ _ R _ _ eq_refl I eq_refl) as H. cbn [ppc_ mk] in H.
+  destruct H as [tc [Hin [t0 [tr1 [E Hle]]]]]. exists t0, tr1, tc. split; [exact E|]. split; [|exact Hle].
+  rewrite E in Hin. destruct Hin as [X|X]; [discriminate X|exact X].
+Qed.
